@@ -44,6 +44,12 @@ def check_index(c):
         return {"labels": ["limit"]}
     space = state.generate_hilbert_space(n)
     D = 2 ** n
+    if n <= 12:
+        require(torch.equal(state.generate_hilbert_space(np.int64(n)), space) and torch.equal(state.generate_hilbert_space(size=n), space), "space-argform",
+                "generate_hilbert_space(size) depends on how the integer is passed (numpy integer / keyword)")
+        kk = (5 * n + 3) % D
+        require(state.subspace_vector(np.int64(kk), np.int64(n)).tolist() == expansion(kk, n) and state.subspace_vector(num=kk, size=n).tolist() == expansion(kk, n),
+                "subspace_vector-argform", "subspace_vector depends on how the integers are passed (numpy integer / keyword)")
     require(tuple(space.shape) == (D, n) and space.dtype == torch.double, "space-shape", f"generate_hilbert_space({n}) has shape {tuple(space.shape)} / dtype {space.dtype}")
     ks = torch.arange(D)
     want = torch.stack([(ks >> (n - 1 - j)) & 1 for j in range(n)], dim=1).double()
